@@ -396,3 +396,35 @@ Ltac ifstep_t tac :=
       eassert (H : eval ext01 c st = Ok _ st);
       [ solve [tac] | rewrite (exec_if c t f st _ _ H); clear H; cbn [truthy] ]
   end.
+
+(* ---- sequences of statements up to re-association: the flattened spine ---------------------------------- *)
+Fixpoint flatten (s : stmt) : list stmt :=
+  match s with
+  | SSeq a b => flatten a ++ flatten b
+  | SPass => []
+  | x => [x]
+  end.
+
+Fixpoint exec_list (l : list stmt) (st : state) : outcome ctl :=
+  match l with
+  | [] => Ok CNormal st
+  | x :: r => bind (exec ext01 x st) (fun c st1 => match c with CNormal => exec_list r st1 | CReturn _ => Ok c st1 end)
+  end.
+
+Lemma exec_list_app : forall l1 l2 st,
+  exec_list (l1 ++ l2) st =
+  bind (exec_list l1 st) (fun c st1 => match c with CNormal => exec_list l2 st1 | CReturn _ => Ok c st1 end).
+Proof.
+  induction l1 as [|x l1 IH]; intros l2 st; [reflexivity|].
+  cbn [app exec_list]. destruct (exec ext01 x st) as [[|v] st1|n st1|w]; cbn [bind]; try reflexivity. apply IH.
+Qed.
+
+Lemma exec_flatten : forall s st, exec ext01 s st = exec_list (flatten s) st.
+Proof.
+  induction s; intros st;
+    try (cbn [flatten exec_list];
+         match goal with |- ?e = bind ?e _ => destruct e as [[|v] st1|n st1|w]; reflexivity end).
+  - reflexivity.
+  - cbn [flatten]. rewrite exec_list_app. cbn [exec]. rewrite IHs1.
+    destruct (exec_list (flatten s1) st) as [[|v] st1|n st1|w]; cbn [bind]; try reflexivity. apply IHs2.
+Qed.
